@@ -1,0 +1,18 @@
+//go:build verif
+
+package echo
+
+// Contracts for the verif engine (/verif). Comment-only: no code is compiled
+// from this file with or without the tag.
+
+// The worker loop (C12: every submission taken from the queue is processed exactly once and its completion
+// is handed back exactly once; the loop ends only when the queue is closed). Callees are abstracted: they
+// are units of their own.
+//@ func (*EchoWorker).Start
+//@ props C12
+//@ abstract-calls .*
+//@ requires w != nil
+//@ site call Process assert caller_sqe == sqe
+//@ site call EnqueueCQE assert itercalls("Process") == 1 && arg0 == iterres("Process", 0)
+//@ site loop 1 backedge assert itercalls("Process") == 1 && itercalls("EnqueueCQE") == 1
+//@ site return assert !ok
